@@ -45,12 +45,18 @@ CLAIMED = {
    text="Comparator laws, agreement with an independent span-list implementation and the engine contract (Separator in [a,b), Successor >= a, AbbreviatedKey consistent, all in slash order) on generated tuples from an alphabet built around '/'; then real Pebble-backed KVs are loaded with data sets spanning tens of 64KiB blocks and every stored key / floor / ceiling / lower / higher / range scan is compared with a reference sorted by the independent order, before and after flushes and overwrites.",
    note="Pebble's own correctness for a coherent comparer is trusted; empty probe keys are skipped for comparison gets (an empty bound means unbounded for the engine iterators).",
    technique="algebraic law checking on generated tuples + differential test of the engine against a sorted reference"),
+ "C08": dict(engine="repl", level="exploration",
+   text="Real leader and follower controllers wired by harness-owned in-memory streams: 2..32 concurrent writers (WriteBlock and Write callbacks) with RF 1/2/3/5, a yield/sleep hook between offset allocation and WAL append, per-link ack delays and a cursor cut/re-attach; hook and stream monitors check every write succeeds, own-response (version id read back), contiguous distinct WAL entries, consecutive apply offsets, commit monotone <= head and never beyond what RF/2 followers acknowledged for the whole prefix, commit == head at quiescence; runs under the race detector. The quorum tracker is additionally driven directly against a three-line model.",
+   note="'All succeed' is restated as: every write returns OK before a generous watchdog while the quorum is healthy (watchdog => inconclusive, error => violation).",
+   technique="invariant monitors on hooks and on the replication streams under concurrent stress + race detector + component model check"),
 }
 
 NOT_APPLICABLE = {}
 DEFAULT_NA = "check not built yet in this session (work in progress)"
 
 ENGINES = [
+ {"name": "repl", "path": "harness/engines/repl", "serves_properties": ["C03", "C04", "C06", "C07", "C08"],
+  "kind_free_text": "real leader/follower controllers through the real ShardsDirector, wired by harness-owned in-memory replication streams; harness plays coordinator"},
  {"name": "kvorder", "path": "harness/engines/kvorder", "serves_properties": ["C11"],
   "kind_free_text": "key-order laws and Pebble-backed KV vs sorted reference"},
  {"name": "kvmodel", "path": "harness/engines/kvmodel", "serves_properties": ["C12", "C13", "C14", "C15", "C16", "C17"],
